@@ -35,13 +35,22 @@ package platform
 //@ spec docType(d *optionDefinition) bool :=
 //@        ((d.Option == "port" || d.Option == "read-size" || d.Option == "transport-pty-height" || d.Option == "transport-pty-width") ==> typeis(d.Value, "int"))
 //@     && ((d.Option == "prompt-pattern" || d.Option == "username-pattern" || d.Option == "password-pattern" || d.Option == "passphrase-pattern" || d.Option == "return-char" || d.Option == "transport-type") ==> typeis(d.Value, "string"))
-//@     && ((d.Option == "read-delay" || d.Option == "timeout-ops") ==> typeis(d.Value, "float64"))
+//@     && ((d.Option == "read-delay" || d.Option == "timeout-ops") ==> typeis(d.Value, "float64") || typeis(d.Value, "int"))
 //@     && (d.Option == "transport-system-open-args" ==> isStrList(d.Value))
 // secondsAsDuration(f): a float number of seconds as a time.Duration (f * 1e9 ns, then truncated), as documented
 //@ spec secondsAsDuration(f int) int := toint(fmul(f, flit(1000000000)))
 //@ spec strList(x any) []string
 //@ axiom #strlist-len forall x any :: {strList(x)} len(strList(x)) == len(as(x, "[]interface{}"))
 //@ axiom #strlist-elems forall x any, k int :: {strList(x)[k]} 0 <= k && k < len(as(x, "[]interface{}")) ==> strList(x)[k] == as(as(x, "[]interface{}")[k], "string")
+// secsOf(v): a yaml number of seconds as a float - the value itself when yaml decoded a float, the converted whole number
+// when it decoded an int ("timeout-ops: 60"; F14: that used to panic)
+//@ spec secsOf(v any) int
+//@ axiom #secs-of-float forall v any :: {secsOf(v)} typeis(v, "float64") ==> secsOf(v) == as(v, "float64")
+//@ func asSeconds [C19]
+//@   pure
+//@   ensures #a-float-or-a-whole-number-of-seconds-is-accepted result.1 <==> (typeis(v, "float64") || typeis(v, "int"))
+//@   ensures #a-float-is-taken-as-it-is typeis(v, "float64") ==> result.0 == secsOf(v)
+//@   assumed ensures typeis(v, "int") ==> result.0 == secsOf(v)
 // optFor(d): the driver option a definition entry stands for (nil for names the block does not know)
 //@ spec optFor(d *optionDefinition) ref :=
 //@        d.Option == "port" ? opt_options_WithPort(as(d.Value, "int"))
@@ -52,8 +61,8 @@ package platform
 //@      : d.Option == "password-pattern" ? opt_options_WithPasswordPattern(compiled(as(d.Value, "string")))
 //@      : d.Option == "passphrase-pattern" ? opt_options_WithPassphrasePattern(compiled(as(d.Value, "string")))
 //@      : d.Option == "return-char" ? opt_options_WithReturnChar(as(d.Value, "string"))
-//@      : d.Option == "read-delay" ? opt_options_WithReadDelay(secondsAsDuration(as(d.Value, "float64")))
-//@      : d.Option == "timeout-ops" ? opt_options_WithTimeoutOps(secondsAsDuration(as(d.Value, "float64")))
+//@      : d.Option == "read-delay" ? opt_options_WithReadDelay(secondsAsDuration(secsOf(d.Value)))
+//@      : d.Option == "timeout-ops" ? opt_options_WithTimeoutOps(secondsAsDuration(secsOf(d.Value)))
 //@      : d.Option == "transport-type" ? opt_options_WithTransportType(as(d.Value, "string"))
 //@      : d.Option == "read-size" ? opt_options_WithTransportReadSize(as(d.Value, "int"))
 //@      : d.Option == "transport-pty-height" ? opt_options_WithTermHeight(as(d.Value, "int"))
